@@ -209,6 +209,8 @@ theorem emit_concat {fuel : Nat} (ih : AllSpec fuel) (ps next curOpen outerOpen)
   simp only [ids] at hn
   rw [emitP]
   split
+  · exact EmitOK.same _ rfl rfl hb hop0   -- ConcatStreams() of nothing = Empty(): EOF, no ctx check
+  split
   · exact EmitOK.same _ rfl rfl hb hop0
   split
   · exact EmitOK.same _ rfl rfl hb hop0
